@@ -76,7 +76,7 @@ impl SwiftField for Field56A {
     where
         Self: Sized,
     {
-        let lines: Vec<&str> = input.lines().collect();
+        let lines: Vec<&str> = input.split('\n').collect();
 
         if lines.is_empty() {
             return Err(ParseError::InvalidFormat {
@@ -163,7 +163,7 @@ impl SwiftField for Field56D {
     where
         Self: Sized,
     {
-        let lines: Vec<&str> = input.lines().collect();
+        let lines: Vec<&str> = input.split('\n').collect();
 
         if lines.is_empty() {
             return Err(ParseError::InvalidFormat {
